@@ -74,12 +74,52 @@ fn views(x: &[u8], h: &v2::Header<'_>, which: &str) -> Verdict {
     Ok(())
 }
 
+/// Existing headers to `clone_from` onto: an owned 316-byte Unix header with TLV bytes, an owned 16-byte LOCAL header, a borrowed IPv4 header.
+fn clone_targets() -> Vec<(&'static str, ppp::v2::Header<'static>)> {
+    static LONG: std::sync::OnceLock<Vec<u8>> = std::sync::OnceLock::new();
+    static SHORT: std::sync::OnceLock<Vec<u8>> = std::sync::OnceLock::new();
+    static MID: std::sync::OnceLock<Vec<u8>> = std::sync::OnceLock::new();
+    let long = LONG.get_or_init(|| {
+        let mut v = crate::oracle::v2::SIG.to_vec();
+        v.extend_from_slice(&[0x21, 0x31, 0x01, 0x2c]);
+        v.extend(crate::engine::fill(0x51, 300));
+        v
+    });
+    let short = SHORT.get_or_init(|| {
+        let mut v = crate::oracle::v2::SIG.to_vec();
+        v.extend_from_slice(&[0x20, 0x00, 0, 0]);
+        v
+    });
+    let mid = MID.get_or_init(|| {
+        let mut v = crate::oracle::v2::SIG.to_vec();
+        v.extend_from_slice(&[0x21, 0x11, 0, 12, 9, 9, 9, 9, 8, 8, 8, 8, 0, 1, 0, 2]);
+        v
+    });
+    let mut out = Vec::new();
+    if let Ok(h) = ppp::v2::Header::try_from(&long[..]) {
+        out.push(("clone_from-onto-longer-owned", h.to_owned()));
+    }
+    if let Ok(h) = ppp::v2::Header::try_from(&short[..]) {
+        out.push(("clone_from-onto-shorter-owned", h.to_owned()));
+    }
+    if let Ok(h) = ppp::v2::Header::try_from(&mid[..]) {
+        out.push(("clone_from-onto-borrowed", h));
+    }
+    out
+}
+
 pub fn judge(x: &Vec<u8>, st: &mut Stats) -> Verdict {
     let got = imp::v2_parse(x);
     let h = match &got {
         Ok(Ok(h)) => h,
         _ => {
-            st.discard();
+            // a candidate the reference accepts but the parser rejects is C02's to report (counted as discarded);
+            // a near-miss that both reject is simply not a header
+            if matches!(crate::oracle::v2::v2_ref(x), crate::oracle::v2::V2Ref::Accept { .. }) {
+                st.discard();
+            } else {
+                st.class("near-miss-not-accepted");
+            }
             return Ok(());
         }
     };
@@ -102,7 +142,15 @@ pub fn judge(x: &Vec<u8>, st: &mut Stats) -> Verdict {
         drop(owned);
         views(x, &twice, "owned-twice")?;
         let cl = h.clone();
-        views(x, &cl, "clone")
+        views(x, &cl, "clone")?;
+        // clone_from onto existing headers (a longer owned one, a shorter owned one, a borrowed one): the target
+        // becomes a copy of this header, whatever it held before
+        for (name, target) in clone_targets() {
+            let mut t = target;
+            t.clone_from(h);
+            views(x, &t, name)?;
+        }
+        Ok(())
     }) {
         Ok(v) => v,
         // an accessor that panics on an accepted header has no value to satisfy the identities with
@@ -111,6 +159,11 @@ pub fn judge(x: &Vec<u8>, st: &mut Stats) -> Verdict {
 }
 
 pub fn gen_case(t: &mut Tape) -> Vec<u8> {
+    // one candidate in seven is a near-miss (truncated at a special length, one field off): only what the parser
+    // accepts is judged, so these matter exactly when a parser accepts something it should not
+    if t.chance(1, 7) {
+        return gen::gen_v2_mutant(t).0;
+    }
     let mut x = gen::gen_v2_header(t).bytes;
     if t.coin() {
         x.extend(gen::gen_trailer(t, false).0);
